@@ -278,6 +278,8 @@ def _termination(facts, rep):
                 ok = True
             if not ok and _read_count_loop(b, cfg, du, h, blks):
                 ok = True
+            if not ok and _reader_helper_loop(facts, b, cfg, du, h, blks):
+                ok = True
             if n in tcp and not ok:
                 # the reconnect loop is the one permitted non-terminating loop; it must be unreachable without --tcp (C18)
                 rep.oblige(True, ("loop", n, "tcp"))
@@ -313,6 +315,36 @@ def _locks(facts, rep):
                             "%s: %s - std::sync locks are not re-entrant, the thread blocks forever (no panic, no output)" % (name, what), loc))
     rep.oblige(True, ("locks-examined",))
     rep.instances("R01.4", n, floor=4, what="lock requests followed through the may-hold dataflow")
+
+
+def _reader_helper_loop(facts, b, cfg, du, h, blks):
+    """`while let Some(line) = next_line(&mut reader, ..)`: every cycle calls a crate helper that reads from the input
+    (read_until / read inside it) and the loop is left when that helper's Option/Result says so"""
+    from ..mirq import expr
+    from ..region import _reach_names
+    blks = set(blks)
+    backs = [a for a, hh in cfg.back_edges() if hh == h]
+    helpers = []
+    for bi in blks:
+        t = b.blocks[bi]["term"]
+        if t["k"] == "call" and callee_name(t) in facts.bodies and all(cfg.dominates(bi, a) for a in backs):
+            names = _reach_names(facts, callee_name(t))
+            if any(n in ("std::io::BufRead::read_until", "std::io::Read::read") or n.endswith("BufRead::read_until") for n in names):
+                helpers.append((bi, t))
+    for hb, ht in helpers:
+        for bi in sorted(blks):
+            t = b.blocks[bi]["term"]
+            if t["k"] != "switch":
+                continue
+            succ = [x for _, x in t["targets"]] + [t["otherwise"]]
+            if all(x in blks for x in succ):
+                continue
+            e = expr(du, t["discr"])
+            if e[0] == "discr" and e[1][0] == "call" and e[1][1] == callee_name(ht):
+                return True
+            if e[0] == "call" and e[1] == callee_name(ht):          # the helper answers "is there another line" as a bool
+                return True
+    return False
 
 
 def _read_count_loop(b, cfg, du, h, blks):
